@@ -58,9 +58,215 @@ def run(ctx):
     rep.rule('R9.5', 'raise_with_cause: cause = explicit cause or the '
              'active exception')
     _save_and_reraise(ctx)
+    _programs(ctx)
     _filter(ctx)
     _remove_path(ctx)
     _raise_with_cause(ctx)
+
+
+# ---------------------------------------------------------------- programs
+# Handler programs over one or two context objects: what each step raises,
+# returns and logs is compared with the statement's semantics kept as a small
+# reference state (saved exception, reraise flag) per context.
+EXC_CLASSES = {'E1': 'ValueError', 'E2': 'KeyError', 'N': 'LookupError',
+               'B': 'KeyboardInterrupt'}
+
+
+def _reference(program):
+    """-> per step: ('return',) / ('raise', label or class), number of log
+    records; None when the program leaves the specified behaviour (using a
+    context whose exception was already handed back)."""
+    saved, flag, spent, out = {}, {}, {}, []
+    for op in program:
+        kind, i = op[0], op[1]
+        if kind == 'new':
+            saved[i], flag[i], spent[i] = None, op[2], False
+            out.append((('return',), 0))
+        elif kind == 'enter':
+            saved[i], spent[i] = op[2], False
+            out.append((('return',), 0))
+        elif kind == 'capture':
+            if op[2] is None and op[3]:
+                out.append((('raise', 'RuntimeError'), 0))
+            else:
+                saved[i], spent[i] = op[2], False
+                out.append((('return',), 0))
+        elif kind == 'set':
+            flag[i] = op[2]
+            out.append((('return',), 0))
+        elif kind == 'exit':
+            if spent[i]:
+                return None
+            if op[2] is None:
+                if flag[i]:
+                    if saved[i] is None:
+                        out.append((('raise', 'RuntimeError'), 0))
+                    else:
+                        out.append((('raise', saved[i]), 0))
+                        spent[i] = True
+                else:
+                    out.append((('return',), 0))
+            else:
+                out.append((('return',), 1 if flag[i] else 0))
+        elif kind == 'force':
+            if spent[i]:
+                return None
+            if saved[i] is None:
+                out.append((('raise', 'RuntimeError'), 0))
+            else:
+                out.append((('raise', saved[i]), 0))
+                spent[i] = True
+    return out
+
+
+def _program_list():
+    progs = []
+    n0 = ('new', 0, True)
+    for flag in (True, False):
+        new = ('new', 0, flag)
+        # one object used for two handlers in a row
+        for first in (None, 'N'):
+            for second in (None, 'N'):
+                progs.append([new, ('enter', 0, 'E1'), ('exit', 0, first),
+                              ('enter', 0, 'E2'), ('exit', 0, second)])
+        # force_reraise() called by the body and propagating through it
+        progs.append([new, ('enter', 0, 'E1'), ('force', 0),
+                      ('enter', 0, 'E2'), ('exit', 0, None)])
+        progs.append([new, ('enter', 0, 'E1'), ('force', 0),
+                      ('enter', 0, 'E2'), ('exit', 0, 'N')])
+        # the body raises the saved exception itself (bare raise)
+        progs.append([new, ('enter', 0, 'E1'), ('exit', 0, 'E1'),
+                      ('enter', 0, 'E2'), ('exit', 0, None)])
+        # flag switched in the body, in both directions, then reuse
+        for to in (True, False):
+            progs.append([new, ('enter', 0, 'E1'), ('set', 0, to),
+                          ('exit', 0, None), ('enter', 0, 'E2'),
+                          ('exit', 0, None)])
+            progs.append([new, ('enter', 0, 'E1'), ('set', 0, to),
+                          ('exit', 0, 'N'), ('enter', 0, 'E2'),
+                          ('set', 0, not to), ('exit', 0, 'N')])
+        # capture() replaces what is saved
+        progs.append([new, ('enter', 0, 'E1'), ('capture', 0, 'E2', True),
+                      ('exit', 0, None)])
+        progs.append([new, ('enter', 0, 'E1'), ('capture', 0, 'E2', True),
+                      ('exit', 0, 'N')])
+        progs.append([new, ('capture', 0, None, True), ('force', 0)])
+        progs.append([new, ('enter', 0, 'E1'), ('exit', 0, 'B')])
+        # two contexts nested around the same exception: each is judged on
+        # its own (the new exception of the inner body crosses both)
+        for f2 in (True, False):
+            other = ('new', 1, f2)
+            for inner, outer in ((None, None), ('N', 'N'), (None, 'N'),
+                                 ('N', None)):
+                progs.append([new, other, ('enter', 0, 'E1'),
+                              ('enter', 1, 'E1'), ('exit', 1, inner),
+                              ('exit', 0, outer)])
+            # two contexts, two exceptions, interleaved
+            progs.append([new, other, ('enter', 0, 'E1'),
+                          ('enter', 1, 'E2'), ('exit', 1, None),
+                          ('exit', 0, None)])
+            progs.append([new, other, ('enter', 0, 'E1'),
+                          ('enter', 1, 'E2'), ('exit', 0, 'N'),
+                          ('exit', 1, 'N')])
+            # the same exception dropped by one context, then by another
+            progs.append([new, ('enter', 0, 'E1'), ('exit', 0, 'N'), other,
+                          ('enter', 1, 'E1'), ('exit', 1, 'N')])
+    return progs
+
+
+def _programs(ctx):
+    rep, world = ctx.report, ctx.world
+    cls = world.cls('excutils', 'save_and_reraise_exception')
+    rep.rule('R9.6', 'handler programs (one context used for several '
+             'handlers, nested contexts around one exception, force_reraise '
+             '/ capture / flag switches in the body): every step raises, '
+             'returns and logs what the statement says, whatever came '
+             'before')
+    n = 0
+    for prog in _program_list():
+        want = _reference(prog)
+        if want is None:
+            continue
+        label = ' ; '.join(' '.join(str(x) for x in op) for op in prog)
+        holder = {}
+
+        def thunk(interp, prog=prog):
+            trace = holder['trace'] = []
+            excs = {k: exc_obj(k, c) for k, c in EXC_CLASSES.items()}
+            lg = logger_obj()
+            objs = {}
+            for op in prog:
+                before = len([e for e in interp.effects if e[0] == 'log'])
+                kind, i = op[0], op[1]
+                res = ('return',)
+                try:
+                    if kind == 'new':
+                        objs[i] = interp.call(cls, [], {'reraise': K(op[2]),
+                                                        'logger': lg})
+                    elif kind in ('enter', 'capture'):
+                        meth = '__enter__' if kind == 'enter' else 'capture'
+                        args = [] if kind == 'enter' else [K(op[3])]
+                        act = excs[op[2]] if op[2] else None
+                        _fake_frame(interp, act)
+                        try:
+                            r = interp.call(interp.get_attr(objs[i], meth),
+                                            args)
+                        finally:
+                            interp.frames.pop()
+                        if r is not objs[i]:
+                            res = ('return', 'not the context')
+                    elif kind == 'set':
+                        interp.set_attr(objs[i], 'reraise', K(op[2]))
+                    elif kind == 'force':
+                        interp.call(interp.get_attr(objs[i],
+                                                    'force_reraise'), [])
+                    elif kind == 'exit':
+                        if op[2] is None:
+                            a = [K(None), K(None), K(None)]
+                        else:
+                            a = [ExtRef(EXC_CLASSES[op[2]]), excs[op[2]],
+                                 T('sym', 'new_tb')]
+                        r = interp.call(interp.get_attr(objs[i],
+                                                        '__exit__'), a)
+                        if interp.truth(r):
+                            res = ('return', 'truthy: the body\'s '
+                                   'exception is swallowed')
+                except AbsRaise as e:
+                    v = e.exc
+                    if isinstance(v, Obj) and v.label in excs:
+                        res = ('raise', v.label)
+                    else:
+                        c = interp.exc_class_of(v)
+                        res = ('raise', getattr(c, 'name', None) or show(v))
+                after = len([e for e in interp.effects if e[0] == 'log'])
+                trace.append((res, after - before))
+            return K(None)
+        try:
+            outcomes, _i = extract(world, thunk, setup=_setup,
+                                   capture=lambda i: list(holder['trace']))
+        except AnalysisError as e:
+            rep.undecided('R9.6', 'program', '%s: %s' % (label, e))
+            continue
+        o = _one(rep, 'R9.6', 'program[%s]' % label, outcomes)
+        if o is None:
+            continue
+        n += 1
+        got = o.state
+        bad = None
+        for k, (g, w) in enumerate(zip(got, want)):
+            if g != w:
+                bad = (k, g, w)
+                break
+        rep.case({'program': label, 'steps': len(prog)}, (label,))
+        rep.check('R9.6', 'program', bad is None,
+                  '%s: step %d (%s) %s and logs %d record(s); required %s '
+                  'and %d' % (label, bad[0] + 1,
+                              ' '.join(str(x) for x in prog[bad[0]]),
+                              ' '.join(bad[1][0]), bad[1][1],
+                              ' '.join(bad[2][0]), bad[2][1])
+                  if bad else '%s: every step as stated' % label,
+                  case=label)
+    rep.count('handler programs decided', n, floor=40)
 
 
 def _force_after(ctx, cls, initial, reraise, body):
